@@ -117,6 +117,67 @@ func genPart(cfg Config, emit func(string, bool, []string)) {
 		}
 		g.emit("new %d", ro)
 		g.addVer(-1)
+		if c%16 == 11 {
+			// (1) keys 33+ radix levels deep with larger siblings at every level: iterators positioned deep
+			// in the tree, read with All() twice and with Next() in between
+			depth := 33 + r.IntN(4)
+			g.emit("txn 0")
+			for i := 0; i <= depth; i++ {
+				pre := strings.Repeat("a", i)
+				if i < depth {
+					g.emit("ins %s %d", hx([]byte(pre+"b")), 2*i)
+					g.emit("ins %s %d", hx([]byte(pre+"c")), 2*i+1)
+				} else {
+					g.emit("ins %s 999", hx([]byte(pre)))
+				}
+			}
+			g.emit("commit")
+			g.addVer(0)
+			g.head = g.nvers - 1
+			g.emit("notify")
+			deep := strings.Repeat("a", depth)
+			g.emit("vkeepiter %d lb %s", g.head, hx([]byte(deep)))
+			g.niters++
+			g.emit("iterall %d", g.niters-1)
+			g.emit("next %d 3", g.niters-1)
+			g.emit("iterall %d", g.niters-1)
+			g.emit("vkeepiter %d iter x", g.head)
+			g.niters++
+			g.emit("next %d 40", g.niters-1)
+			g.emit("iterall %d", g.niters-1)
+			g.emit("iterall %d", g.niters-1)
+			// (2) a prefix with nothing under it, asked through a transaction that has already written a
+			// sibling; a key under that prefix is inserted afterwards: the channel handed out closes
+			base := g.head
+			for _, q := range []string{"q/", "q/3", "q"} {
+				g.emit("txn %d", base)
+				g.emit("ins %s 5", hx([]byte("q/2")))
+				g.emit("prefix %s", hx([]byte(q+"x")))
+				g.emit("prefix %s", hx([]byte("q/3")))
+				g.emit("ins %s 7", hx([]byte("q/3x")))
+				if r.IntN(2) == 0 {
+					g.emit("ins %s 8", hx([]byte(q+"xy")))
+				}
+				g.emit("commit")
+				g.addVer(base)
+				g.emit("closed")
+				g.emit("notify")
+				g.emit("closed")
+				base = g.nvers - 1
+				g.head = base
+				g.emit("txn %d", base)
+				g.emit("del %s", hx([]byte("q/2")))
+				g.emit("del %s", hx([]byte("q/3x")))
+				g.emit("del %s", hx([]byte(q+"xy")))
+				g.emit("commit")
+				g.addVer(base)
+				g.emit("notify")
+				base = g.nvers - 1
+				g.head = base
+			}
+			emit(fmt.Sprintf("part deep-iterators rootonly=%d", ro), true, g.ops)
+			continue
+		}
 		if c%16 == 15 {
 			// a node at a capacity boundary (4, 16, 48 children): a transaction that would promote it is
 			// abandoned, then a second transaction from the SAME version changes a key below that node
@@ -1085,6 +1146,20 @@ func (e *partExec) do(o *Out, f []string) string {
 		}
 		e.iters = append(e.iters, &partIter{it: it, want: want})
 		return fmt.Sprintf("i%d", len(e.iters)-1)
+	case "iterall":
+		// Iterator.All(): "can be called multiple times, does not modify the iterator" — twice
+		i, _ := strconv.Atoi(f[1])
+		pi := e.iters[i]
+		var res [2][]kv
+		for round := 0; round < 2; round++ {
+			for k, v := range pi.it.All {
+				res[round] = append(res[round], kv{string(k), v})
+			}
+			if !eqKVs(res[round], pi.want) {
+				o.Fail("C11", "persistence", map[string]string{"op": "iterator-all", "round": strconv.Itoa(round + 1)}, fmt.Sprintf("retained iterator i%d, All() number %d: got %d entries %s want %d entries %s", i, round+1, len(res[round]), showKVs(res[round]), len(pi.want), showKVs(pi.want)))
+			}
+		}
+		return showKVs(res[1])
 	case "next":
 		i, _ := strconv.Atoi(f[1])
 		n, _ := strconv.Atoi(f[2])
